@@ -38,7 +38,7 @@ def baseline_abstraction():
 # library contracts that OVER-approximate numpy (a sum known only through bounds, a count through a few axioms, a generic ndarray method, an
 # unconstrained random stream, 'may return the same object'): a counter-model that newly passes through one of these may be spurious. All other
 # contracts in pyvc/lib.py state the exact elementwise / positional semantics, so a counter-model through them is a real behaviour.
-WEAK_CONTRACT_MARKS = ("np.sum", "np.nansum", "assumed NaN-free", "numpy ndarray method", "RandomState model", "check_array", "validation only", "length only")
+WEAK_CONTRACT_MARKS = ("of a non-negative", "(unconstrained value)", "assumed NaN-free", "numpy ndarray method", "RandomState model", "check_array", "validation only", "length only")
 
 
 def weak_contract(tag):
